@@ -6,7 +6,9 @@ SEEDS="$@"; [ -z "$SEEDS" ] && SEEDS=$(ls seeded)
 for sid in $SEEDS; do
     prop=${sid%%-*}
     [ -z "$(git -C /repo status --porcelain)" ] || { echo "/repo not clean"; exit 2; }
-    git -C /repo apply /verif/seeded/$sid/patch.diff || { echo "$sid: patch does not apply"; continue; }
+    # a seed made against an older tree may have been re-created for the current one
+    P=/verif/seeded/$sid/patch.diff; [ -f /verif/seeded/$sid/patch_rebased.diff ] && P=/verif/seeded/$sid/patch_rebased.diff
+    git -C /repo apply $P || { echo "$sid: patch does not apply"; continue; }
     cp evidence/$prop.json /tmp/recheck-ev.json 2>/dev/null
     extra=""; [ "$sid" = "C07-4" ] && extra="C14"
     res=""
